@@ -127,6 +127,24 @@ var c18Cat = func() []c18CatEntry {
 					{Name: "dev1", Annotations: cp(), ContainerEdits: specs.ContainerEdits{Env: []string{"D=1"}}}}}
 			}})
 	}
+	out = append(out,
+		c18CatEntry{"cdiVersion written with a leading v", func() *specs.Spec {
+			return &specs.Spec{Version: "v0.6.0", Kind: "vendor.com/gpu", Devices: []specs.Device{{Name: "dev0", ContainerEdits: specs.ContainerEdits{Env: []string{"D=0"}}}}}
+		}},
+		c18CatEntry{"cdiVersion v1.0.0", func() *specs.Spec {
+			return &specs.Spec{Version: "v1.0.0", Kind: "vendor.com/gpu", Devices: []specs.Device{{Name: "dev0", ContainerEdits: specs.ContainerEdits{Env: []string{"D=0"}}}}}
+		}},
+		c18CatEntry{"device names that differ in letter case only", func() *specs.Spec {
+			return &specs.Spec{Version: "1.0.0", Kind: "vendor.com/gpu", Devices: []specs.Device{
+				{Name: "gpu0", ContainerEdits: specs.ContainerEdits{Env: []string{"D=0"}}},
+				{Name: "GPU0", ContainerEdits: specs.ContainerEdits{Env: []string{"D=1"}}},
+				{Name: "Gpu0", ContainerEdits: specs.ContainerEdits{Env: []string{"D=2"}}}}}
+		}},
+		c18CatEntry{"kinds and names at their extremes", func() *specs.Spec {
+			return &specs.Spec{Version: "1.0.0", Kind: "V-1.x_y/c-1_z.w", Devices: []specs.Device{
+				{Name: "0", ContainerEdits: specs.ContainerEdits{Env: []string{"D=0"}}},
+				{Name: "x-y_z.w:1", ContainerEdits: specs.ContainerEdits{Env: []string{"D=1"}}}}}
+		}})
 	for _, m := range mins {
 		m := m
 		out = append(out,
